@@ -124,7 +124,8 @@ fn dec_context_default() -> DecContext {
 
 /// Converts a string into decimal.
 pub fn dec_from_string(s: &str) -> DecQuad {
-  let c_s = CString::new(s).unwrap();
+  // a text with an interior NUL character is not a number (the empty text converts to NaN)
+  let c_s = CString::new(s).unwrap_or_default();
   let mut value = DecQuad::default();
   unsafe {
     decQuadFromString(&mut value, c_s.as_ptr(), &mut DEFAULT_CONTEXT.clone());
